@@ -111,8 +111,9 @@ func cli(c Case) *h.Failure {
 		var so, se bytes.Buffer
 		cmd.Stdout, cmd.Stderr = &so, &se
 		err := cmd.Run()
+		timedOut := ctx.Err() == context.DeadlineExceeded
 		cancel()
-		if ctx.Err() != nil {
+		if timedOut {
 			return mk("cli-hang", "evy run did not return for a rejected program")
 		}
 		code := 0
